@@ -7,7 +7,7 @@
 (*   Sample{gid,code}                 aggregator decorator                 *)
 (*   ConnBegin{srv,conn} ConnEnd{srv,conn} ReflCall{srv,conn}              *)
 (*   Recv{srv,conn,toks}              the target's stats.Handler view      *)
-(*   TargetDown TargetUp Recovered{ok}  (updown runs)                      *)
+(*   TargetStopping TargetDown TargetUp Recovered{ok}  (updown runs)       *)
 (*   RunEnd{class}                    none | warmup | canceled | other     *)
 (* Client identities are not observable, connections are: the trace drives *)
 (* GrpcConn's phase / tgt / sh / gconn / shots / flips and keeps the       *)
@@ -24,32 +24,34 @@ VARIABLES l,
           cur,      \* gun -> token of the ammo it is shooting
           gid,      \* gun -> goroutine in Shoot
           ended,    \* shots that returned
-          okAfterUp, shotsAfterDown, recovered
+          okAfterUp, shotsAfterDown, recovered,
+          wentDown  \* the target's Stop has returned (TargetDown); the outage BEGINS with TargetStopping
 
-tx == <<run, newguns, bound, conns, refl, cur, gid, ended, okAfterUp, shotsAfterDown, recovered>>
+tx == <<run, newguns, bound, conns, refl, cur, gid, ended, okAfterUp, shotsAfterDown, recovered, wentDown>>
 Trace == ndJsonDeserialize(IOEnv.VERIF_TRACE)
 Ev == Trace[l]
 Mark == TLCSet(1, IF TLCGet(1) > l + 1 THEN TLCGet(1) ELSE l + 1)
 Rng(s) == {s[i] : i \in DOMAIN s}
 
-NoRun == [mode |-> "none", shared |-> FALSE, clients |-> 0, inst |-> 0, entries |-> 0, timeout |-> 0, slow |-> <<>>]
-TraceInit == /\ l = 1 /\ TLCSet(1, 1) /\ InitWith([shared |-> FALSE, k |-> 1, refl |-> TRUE])
+NoRun == [mode |-> "none", shared |-> FALSE, clients |-> 0, inst |-> 0, entries |-> 0, timeout |-> 0, slow |-> <<>>, authority |-> ""]
+TraceInit == /\ l = 1 /\ TLCSet(1, 1) /\ InitWith([shared |-> FALSE, k |-> 1, refl |-> TRUE, tls |-> FALSE, ttls |-> FALSE, needmd |-> FALSE, rmd |-> FALSE])
              /\ run = NoRun /\ newguns = 0 /\ bound = {} /\ conns = {} /\ refl = {}
              /\ cur = [g \in Guns |-> ""] /\ gid = [g \in Guns |-> 0] /\ ended = 0
-             /\ okAfterUp = 0 /\ shotsAfterDown = 0 /\ recovered = FALSE
+             /\ okAfterUp = 0 /\ shotsAfterDown = 0 /\ recovered = FALSE /\ wentDown = FALSE
 
 Keep == UNCHANGED <<cfg, clients, rr, cof, live, nconn, owner, dead>>
 AllIdle == \A g \in Guns : sh[g] = "idle"
 
 TRun == /\ Ev.ev = "Run" /\ AllIdle
         /\ run' = [mode |-> Ev.mode, shared |-> Ev.shared, clients |-> Ev.clients, inst |-> Ev.inst, entries |-> Ev.entries,
-                   timeout |-> Ev.timeout, slow |-> Ev.slow]
-        /\ cfg' = [shared |-> Ev.shared, k |-> Ev.clients, refl |-> Ev.mode # "dead"]
+                   timeout |-> Ev.timeout, slow |-> Ev.slow, authority |-> Ev.authority]
+        /\ cfg' = [shared |-> Ev.shared, k |-> Ev.clients, refl |-> Ev.mode # "dead",
+                   tls |-> Ev.tls, ttls |-> Ev.ttls, needmd |-> Ev.needmd, rmd |-> Ev.rmd]
         /\ phase' = "init" /\ tgt' = IF Ev.mode \in {"dead", "deadtarget"} THEN "down" ELSE "up"
         /\ sh' = [g \in Guns |-> "idle"] /\ gconn' = [g \in Guns |-> {}] /\ shots' = 0 /\ flips' = 0
         /\ newguns' = 0 /\ bound' = {} /\ conns' = {} /\ refl' = {}
         /\ cur' = [g \in Guns |-> ""] /\ gid' = [g \in Guns |-> 0] /\ ended' = 0
-        /\ okAfterUp' = 0 /\ shotsAfterDown' = 0 /\ recovered' = FALSE
+        /\ okAfterUp' = 0 /\ shotsAfterDown' = 0 /\ recovered' = FALSE /\ wentDown' = FALSE
         /\ UNCHANGED <<clients, rr, cof, live, nconn, owner, dead>>
 
 Same == UNCHANGED <<cfg, phase, tgt, clients, rr, cof, live, nconn, owner, sh, gconn, dead, shots, flips>>
@@ -57,30 +59,39 @@ Same == UNCHANGED <<cfg, phase, tgt, clients, rr, cof, live, nconn, owner, sh, g
 \* the first product of the factory is the warm-up gun; instance guns only after a successful warm-up
 TNewGun == /\ Ev.ev = "NewGun" /\ newguns' = newguns + 1
            /\ newguns = 0 \/ phase = "warm"
-           /\ Same /\ UNCHANGED <<run, bound, conns, refl, cur, gid, ended, okAfterUp, shotsAfterDown, recovered>>
+           /\ Same /\ UNCHANGED <<run, bound, conns, refl, cur, gid, ended, okAfterUp, shotsAfterDown, recovered, wentDown>>
 \* the reflection stream: WarmUp listing the methods (GrpcConn!WarmOK)
-TRefl == /\ Ev.ev = "ReflCall" /\ phase \in {"init", "warm"} /\ newguns = 1 /\ bound = {}
+\* reflect_metadata travels with every reflection stream (and only if configured); dial_options.authority is what the server sees
+TRefl == /\ Ev.ev = "ReflCall" /\ Ev.ok /\ phase \in {"init", "warm"} /\ newguns = 1 /\ bound = {}
+         /\ Configured
+         /\ Ev.reflmd = (IF cfg.rmd THEN "secret" ELSE "")
+         /\ run.authority # "" => Ev.authority = run.authority
          /\ phase' = "warm" /\ refl' = refl \cup {Ev.conn}
          /\ UNCHANGED <<cfg, tgt, clients, rr, cof, live, nconn, owner, sh, gconn, dead, shots, flips>>
-         /\ UNCHANGED <<run, newguns, bound, conns, cur, gid, ended, okAfterUp, shotsAfterDown, recovered>>
+         /\ UNCHANGED <<run, newguns, bound, conns, cur, gid, ended, okAfterUp, shotsAfterDown, recovered, wentDown>>
+\* a reflection stream without the credentials the endpoint needs is turned away: the warm-up does not succeed
+TReflDenied == /\ Ev.ev = "ReflCall" /\ ~Ev.ok /\ cfg.needmd /\ ~cfg.rmd /\ phase = "init" /\ Ev.reflmd = ""
+               /\ Same /\ UNCHANGED tx
 TBind == /\ Ev.ev = "Bind" /\ Ev.ok /\ phase = "warm" /\ Ev.gun \in Guns /\ Ev.gun \notin bound
          /\ bound' = bound \cup {Ev.gun}
-         /\ Same /\ UNCHANGED <<run, newguns, conns, refl, cur, gid, ended, okAfterUp, shotsAfterDown, recovered>>
+         /\ Same /\ UNCHANGED <<run, newguns, conns, refl, cur, gid, ended, okAfterUp, shotsAfterDown, recovered, wentDown>>
 \* connections: the reflection server's are of no interest; the target's are counted
 TConnBegin == /\ Ev.ev = "ConnBegin"
               /\ conns' = IF Ev.srv = "target" THEN conns \cup {Ev.conn} ELSE conns
               /\ Ev.srv = "target" => tgt = "up"
-              /\ Same /\ UNCHANGED <<run, newguns, bound, refl, cur, gid, ended, okAfterUp, shotsAfterDown, recovered>>
+              /\ Same /\ UNCHANGED <<run, newguns, bound, refl, cur, gid, ended, okAfterUp, shotsAfterDown, recovered, wentDown>>
 TStutter == Ev.ev \in {"ConnEnd", "Acquire", "Release"} /\ Same /\ UNCHANGED tx
 TShootBegin == /\ Ev.ev = "ShootBegin" /\ Ev.gun \in bound /\ sh[Ev.gun] = "idle"
                /\ sh' = [sh EXCEPT ![Ev.gun] = "call"] /\ shots' = shots + 1
                /\ cur' = [cur EXCEPT ![Ev.gun] = Ev.tok] /\ gid' = [gid EXCEPT ![Ev.gun] = Ev.gid]
-               /\ shotsAfterDown' = IF flips > 0 THEN shotsAfterDown + 1 ELSE shotsAfterDown
+               /\ shotsAfterDown' = IF wentDown THEN shotsAfterDown + 1 ELSE shotsAfterDown
                /\ UNCHANGED <<cfg, phase, tgt, clients, rr, cof, live, nconn, owner, gconn, dead, flips>>
-               /\ UNCHANGED <<run, newguns, bound, conns, refl, ended, okAfterUp, recovered>>
+               /\ UNCHANGED <<run, newguns, bound, conns, refl, ended, okAfterUp, recovered, wentDown>>
 \* the call of the gun shooting that token arrives at the TARGET, while it is up, on an accepted connection (Arrive)
 TRecv == /\ Ev.ev = "Recv" /\ Ev.srv = "target" /\ tgt = "up" /\ Ev.conn \in conns /\ Ev.conn \notin refl
          /\ Len(Ev.toks) > 0
+         /\ ~Ev.reflmd                                               \* reflect_metadata is for reflection only
+         /\ run.authority # "" => Ev.authority = run.authority
          /\ \E g \in bound : /\ sh[g] = "call" /\ cur[g] = Ev.toks[1]
                              /\ sh' = [sh EXCEPT ![g] = "recv"]
                              /\ gconn' = [gconn EXCEPT ![g] = @ \cup {Ev.conn}]
@@ -96,32 +107,39 @@ TSample == /\ Ev.ev = "Sample"
                         \/ run.mode = "updown" /\ flips > 0
                         \/ run.timeout > 0 /\ Ev.tag \in Rng(run.slow) /\ Ev.code = 504 /\ sh[g] = "recv"
                 /\ sh' = [sh EXCEPT ![g] = "done"]
-                /\ okAfterUp' = IF Ev.code = 200 /\ flips > 0 /\ tgt = "up" THEN okAfterUp + 1 ELSE okAfterUp
+                /\ okAfterUp' = IF Ev.code = 200 /\ wentDown /\ tgt = "up" THEN okAfterUp + 1 ELSE okAfterUp
            /\ UNCHANGED <<cfg, phase, tgt, clients, rr, cof, live, nconn, owner, gconn, dead, shots, flips>>
-           /\ UNCHANGED <<run, newguns, bound, conns, refl, cur, gid, ended, shotsAfterDown, recovered>>
+           /\ UNCHANGED <<run, newguns, bound, conns, refl, cur, gid, ended, shotsAfterDown, recovered, wentDown>>
 TShootEnd == /\ Ev.ev = "ShootEnd" /\ Ev.gun \in bound /\ sh[Ev.gun] = "done" /\ gid[Ev.gun] = Ev.gid
              /\ sh' = [sh EXCEPT ![Ev.gun] = "idle"] /\ ended' = ended + 1
              /\ UNCHANGED <<cfg, phase, tgt, clients, rr, cof, live, nconn, owner, gconn, dead, shots, flips>>
-             /\ UNCHANGED <<run, newguns, bound, conns, refl, cur, gid, okAfterUp, shotsAfterDown, recovered>>
-TDown == /\ Ev.ev = "TargetDown" /\ run.mode = "updown" /\ tgt = "up"
-         /\ tgt' = "down" /\ flips' = flips + 1
-         /\ UNCHANGED <<cfg, phase, clients, rr, cof, live, nconn, owner, sh, gconn, dead, shots>> /\ UNCHANGED tx
+             /\ UNCHANGED <<run, newguns, bound, conns, refl, cur, gid, okAfterUp, shotsAfterDown, recovered, wentDown>>
+\* the outage BEGINS when the driver starts stopping the target (logged BEFORE Stop is called): from here on a call may
+\* fail (its connection is being torn down) although calls in flight may still arrive until Stop has returned
+TStopping == /\ Ev.ev = "TargetStopping" /\ run.mode = "updown" /\ tgt = "up" /\ flips = 0
+             /\ flips' = flips + 1
+             /\ UNCHANGED <<cfg, phase, tgt, clients, rr, cof, live, nconn, owner, sh, gconn, dead, shots>> /\ UNCHANGED tx
+\* Stop has returned: nothing is received any more (GrpcConn!Down)
+TDown == /\ Ev.ev = "TargetDown" /\ run.mode = "updown" /\ tgt = "up" /\ flips > 0
+         /\ tgt' = "down" /\ wentDown' = TRUE
+         /\ UNCHANGED <<cfg, phase, clients, rr, cof, live, nconn, owner, sh, gconn, dead, shots, flips>>
+         /\ UNCHANGED <<run, newguns, bound, conns, refl, cur, gid, ended, okAfterUp, shotsAfterDown, recovered>>
 TUp == /\ Ev.ev = "TargetUp" /\ tgt = "down"
        /\ tgt' = "up"
        /\ UNCHANGED <<cfg, phase, clients, rr, cof, live, nconn, owner, sh, gconn, dead, shots, flips>> /\ UNCHANGED tx
 TRecovered == /\ Ev.ev = "Recovered" /\ Ev.ok /\ recovered' = TRUE
-              /\ Same /\ UNCHANGED <<run, newguns, bound, conns, refl, cur, gid, ended, okAfterUp, shotsAfterDown>>
+              /\ Same /\ UNCHANGED <<run, newguns, bound, conns, refl, cur, gid, ended, okAfterUp, shotsAfterDown, wentDown>>
 \* how the run must end
 TRunEnd == /\ Ev.ev = "RunEnd" /\ AllIdle
-           /\ CASE run.mode = "dead"   -> Ev.class = "warmup" /\ bound = {} /\ shots = 0 /\ newguns = 1      \* WarmFail
+           /\ CASE ~Configured          -> Ev.class = "warmup" /\ bound = {} /\ shots = 0 /\ newguns = 1 /\ phase = "init"  \* WarmFail
                 [] run.mode = "updown" -> /\ Ev.class = "canceled" /\ recovered
                                           /\ shotsAfterDown > 0 /\ okAfterUp > 0 /\ Cardinality(bound) = run.inst
                 [] OTHER               -> Ev.class = "none" /\ ended = run.entries /\ Cardinality(bound) = run.inst
            /\ Same /\ UNCHANGED tx
 
 TraceNext == /\ l <= Len(Trace)
-             /\ (TRun \/ TNewGun \/ TRefl \/ TBind \/ TConnBegin \/ TStutter \/ TShootBegin \/ TRecv \/ TSample \/ TShootEnd
-                 \/ TDown \/ TUp \/ TRecovered \/ TRunEnd)
+             /\ (TRun \/ TNewGun \/ TRefl \/ TReflDenied \/ TBind \/ TConnBegin \/ TStutter \/ TShootBegin \/ TRecv \/ TSample \/ TShootEnd
+                 \/ TStopping \/ TDown \/ TUp \/ TRecovered \/ TRunEnd)
              /\ l' = l + 1
              /\ Mark
 
